@@ -99,3 +99,64 @@ Example C05_conservation_example :
   finished c4 = true /\ map t_results (c_threads c4) = [[RLos 0 false; ROpt (Some 0)]; [RLos 0 false; ROpt (Some 0)]]%Z /\
   Forall (Forall frag) c05_progs.
 Proof. vm_compute. repeat split; repeat constructor. Qed.
+
+(* ------------------------------------------------------------------ *)
+(* sync2.Set is an atomic set: linearizability to the SET specification *)
+(* ------------------------------------------------------------------ *)
+(* For every list of programs of Add (LoadOrStore(v, struct{}{}), the unit value
+   modelled by 0), Remove (LoadAndDelete) and Has (Load) on one Set ([set_frag];
+   any number of goroutines, any length) and every schedule of the small-step
+   model: the history of invocations and responses is linearizable (Lib/Lin.v)
+   to the sequential set [set_spec] (Add reports loaded = "was present", Remove
+   and Has report membership). Derived from C04_linearizable by a simulation
+   (SyncMap/SetLin.v). *)
+From Typ Require Import Lib.Lin SyncMap.Linearizable SyncMap.SetLin.
+
+Theorem C05_set_linearizable : forall progs sched,
+  Forall (Forall set_frag) progs ->
+  linearizable set_spec ∅ (map_hist (run_schedule (init_config 1 progs) sched)).
+Proof. exact set_linearizable. Qed.
+Print Assumptions C05_set_linearizable.
+
+(* The statement of the property: there is a linearization order [o] of the
+   calls (one marker per call, placed between its invocation and its response:
+   [poss_ord], so [o] is consistent with real-time order) such that
+   - every response in the history is the result its call has in [o], and [o]
+     only contains calls the history invoked;
+   - read as a sequential history, [o] is a legal history of a set that starts
+     empty ([legal ∅], SetSpec.v) and ends in the present contents [s] of the
+     Set (v ∈ s iff the underlying Map holds v); once all goroutines are done
+     every call has its marker;
+   - hence, for every value, the successful Adds and Removes alternate in that
+     order, starting with an Add, and #successful Adds - #successful Removes is
+     the value's membership (0 or 1): two Adds (or two Removes) of one value
+     that both succeed are always separated by a successful Remove (Add). *)
+Theorem C05_atomic_set : forall progs sched,
+  Forall (Forall set_frag) progs ->
+  let c := run_schedule (init_config 1 progs) sched in
+  exists (s : gset Z) (P : nat -> option (call * option res)) (o : list (nat * call * res)),
+    poss_ord set_spec ∅ (rev (map_hist c)) s P o /\
+    (forall v, v ∈ s <-> abs_lookup (st0 c) v <> None) /\
+    (finished c = true -> forall t, P t = None) /\
+    (forall t r, In (HRes t r) (map_hist c) -> exists c0, In (t, c0, r) o) /\
+    (forall t c0 r, In (t, c0, r) o -> In (HInv t c0) (map_hist c)) /\
+    legal ∅ (sops o) /\ final ∅ (sops o) = s /\
+    forall v, alternates true (succ_events v (sops o)) /\
+              (count_true (succ_events v (sops o)) - count_false (succ_events v (sops o)) =
+               if bool_decide (v ∈ s) then 1 else 0)%Z.
+Proof. exact set_atomic. Qed.
+Print Assumptions C05_atomic_set.
+
+(* Non-vacuity: the programs of C05_conservation_example are Set programs, and
+   in that run G1's Add overlaps G0's Remove (its response comes while the
+   Remove is still in flight). *)
+Example C05_atomic_set_example :
+  Forall (Forall set_frag) c05_progs /\
+  map_hist (run_schedule (init_config 1 c05_progs)
+              (c05_sch ([0;0;0;0;0] ++ [0; 0;0;0;0;0] ++ [1;1;1;1;1;1] ++ [0;0; 1;1;1;1;1;1]))) =
+    [HInv 0 (CLoadOrStore 0 5 0 PNone); HRes 0 (RLos 0 false);
+     HInv 0 (CLoadAndDelete 0 5);
+     HInv 1 (CLoadOrStore 0 5 0 PNone); HRes 1 (RLos 0 false);
+     HRes 0 (ROpt (Some 0));
+     HInv 1 (CLoad 0 5); HRes 1 (ROpt (Some 0))]%Z.
+Proof. split; [repeat constructor|vm_compute; reflexivity]. Qed.
